@@ -5,6 +5,7 @@ package payment
 
 import (
 	"math/big"
+	"time"
 
 	"github.com/vipnode/vipnode/v2/pool/store"
 )
@@ -19,3 +20,17 @@ func VerifContractPayment(storeDriver store.AccountStore, getter func(account st
 	p.balanceCache.expireAfter = 1 // 1ns: entries are always expired at the next lookup
 	return p
 }
+
+// VerifCache exposes the deposit cache with an injected clock and lookup
+// (verification hook, only built with -tags verif).
+type VerifCache struct{ c *balanceCache }
+
+// VerifNewBalanceCache returns a deposit cache whose clock is now and whose
+// lookups go to getter.
+func VerifNewBalanceCache(expireAfter time.Duration, now func() time.Time, getter func(account store.Account) (*big.Int, error)) *VerifCache {
+	return &VerifCache{c: &balanceCache{Getter: getter, expireAfter: expireAfter, nowFn: now}}
+}
+
+func (v *VerifCache) Get(account store.Account) (*big.Int, error) { return v.c.Get(account) }
+func (v *VerifCache) Set(account store.Account, amount *big.Int)  { v.c.Set(account, amount) }
+func (v *VerifCache) Reset(expireAfter time.Duration)             { v.c.Reset(expireAfter) }
